@@ -110,18 +110,26 @@ def pt_seg(p, a, b):
 
 
 def seg_seg(p1, q1, p2, q2):
+  """Closest points of two segments.  The minimum is attained either at the (unclamped) closest points of the two lines,
+  if both lie inside their segments, or with an end point on one side: the smallest candidate is the exact minimum,
+  also for nearly parallel segments where the closed-form parameters lose accuracy."""
   d1, d2, r = q1 - p1, q2 - p2, p1 - p2
   a, e, f = d1 @ d1, d2 @ d2, d2 @ r
   c, b = d1 @ r, d1 @ d2
   den = a * e - b * b
   parallel = den < 1e-9 * a * e
-  s = np.clip((b * f - c * e) / den, 0, 1) if not parallel else 0.0
-  t = (b * s + f) / e
-  if t < 0:
-    t, s = 0.0, np.clip(-c / a, 0, 1)
-  elif t > 1:
-    t, s = 1.0, np.clip((b - c) / a, 0, 1)
-  return p1 + d1 * s, p2 + d2 * t, parallel
+  cands = []
+  if den > 1e-14 * a * e:
+    s_ = (b * f - c * e) / den
+    t_ = (b * s_ + f) / e
+    if 0 <= s_ <= 1 and 0 <= t_ <= 1:
+      cands.append((p1 + d1 * s_, p2 + d2 * t_))
+  for pt in (p1, q1):
+    cands.append((pt, pt_seg(pt, p2, q2)))
+  for pt in (p2, q2):
+    cands.append((pt_seg(pt, p1, q1), pt))
+  c1, c2 = min(cands, key=lambda cc: np.linalg.norm(cc[1] - cc[0]))
+  return c1, c2, parallel
 
 
 def world_geoms(sc, link_pos, link_quat):
